@@ -703,6 +703,11 @@ func (r *Raft) RemoveServer(id string, timeout time.Duration) Future[Configurati
 	// Add the configuration to the log.
 	r.appendConfiguration(&configuration)
 
+	// The membership change is pending until the configuration is committed. No other membership
+	// change may be started before - two changes that are based on the same configuration could
+	// otherwise result in configurations that do not have a voting member in common.
+	r.configuration = &configuration
+
 	r.sendAppendEntriesToPeers()
 
 	r.logger.Debugf(
@@ -1844,7 +1849,12 @@ func (r *Raft) commitLoop() {
 
 			// Check whether the majority of nodes in the cluster agree on the entry.
 			// If they do, it is safe to commit.
-			matches := 1
+			// This node only counts if it is a voting member - a leader that is
+			// being removed does not count itself.
+			matches := 0
+			if r.isVoter(r.id) {
+				matches = 1
+			}
 			for id, follower := range r.followers {
 				// Ignore this node and any nodes which are not voting members.
 				if id == r.id || !r.configuration.IsVoter[id] {
